@@ -212,6 +212,7 @@ def _mesh_2d(check, proj, cls):
     dom = GvnDomain(A)
     it = Interp(proj, dom)
     nx, ny = A.sym("nx", positive=True), A.sym("ny", positive=True)
+    A.integer_atoms |= {A.by_name["nx"].id, A.by_name["ny"].id}
     lx, ly = A.sym("lx", positive=True), A.sym("ly", positive=True)
     it.np_hooks = {"builtin:slice": lambda args, kw: Family(A, it.lift(args[1]) - it.lift(args[0]), A.const(1), it.lift(args[0])),
                    "arange": lambda args, kw: _arange(args, kw), "linspace": lambda args, kw: _linspace(args, kw), "meshgrid": lambda args, kw: _meshgrid(args, kw),
@@ -242,6 +243,13 @@ def _mesh_2d(check, proj, cls):
     def _arange(args, kw):
         if len(args) == 1:
             return Family(A, it.lift(args[0]), A.const(1), A.const(0))
+        ints = {A.by_name[n_].id for n_ in ("nx", "ny") if n_ in A.by_name}
+
+        def integral(v):
+            v = it.lift(v)
+            return not v.den and set(A.atoms_of(v)) <= ints and all(c.denominator == 1 for c in v.num.values())
+        if len(args) == 2 and not kw and integral(args[0]) and integral(args[1]):
+            return Family(A, it.lift(args[1]) - it.lift(args[0]), A.const(1), it.lift(args[0]))       # integer bounds: b - a entries
         e = AnalysisError("np.arange with a non-integer step in the 2D mesh")
         e.violation = ("MESH2D-CENTRE", cls.qualname, "abscissae built by np.arange with non-integer arguments: the number of entries is ceil((stop-start)/step) evaluated in floating point, i.e. decided by rounding -- lx/(lx/nx) is not always nx (1/(1/49) = 49.00000000000001), so for some grids there are nx+1 abscissae, the last outside the domain, and (nx+1)*ny centres for nx*ny cells; np.linspace(0, lx, nx, endpoint=False) fixes the count",
                        "float-arange-2d", {"C20", "C15", "C14", "C01"})
